@@ -8,6 +8,9 @@ BASE_NOTE = "Trusted base: Go 1.26.8 toolchain (testing/synctest for the virtual
 
 # property -> (technique, level text, design ref, extra note)
 CLAIMED = {
+ "C09": ("interruption-point search in a synctest bubble: blocking operation x peer script x interruption kind x phase, quiescence proves the call is blocked, fixed virtual allowance after the interruption; servers on in-memory listeners with Stop from several goroutines",
+         "6k (quick) / 100k (thorough) generated combinations of {GET, block-wise POST, large POST, observe, observation cancel, ping, one-way write} x {silent, ACK only, unrelated traffic, j blocks then silence, stops reading, closes} x {cancel, deadline, local Close, peer close} x {before, during; queued behind the limiter / NSTART} on both in-memory transports, plus 1.5k / 40k server scenarios (tcp and dtls servers with idle, in-flight, stalled-handshake and silent peers). Leak detection on leaving the bubble decides 'close is clean'.",
+         "DESIGN.md 3/C09", "One open known finding: a stream write stalled by a non-reading peer ignores the context. Real sockets (UDP, DTLS-PSK, TCP, TLS) are covered by the real-socket slice of the thorough tier only."),
  "C11": ("history search in a synctest bubble: scripted peer injects numbered messages; handlers return, block on nested requests on their own connection, or block on a gate; multiset/order oracle over the handler log",
          "8k (quick) / 200k (thorough) generated event histories on datagram and stream connections with receive queues 0/1/16, nesting to three sequential blocking requests per handler and several handlers blocked at once, concurrent application requests and close at a generated point; quiescence after each event makes 'dispatched exactly once' and 'the nested request completes' decidable.",
          "DESIGN.md 3/C11", ""),
